@@ -234,6 +234,16 @@ func runC20(e *Env) {
 			afterInactive++
 		}
 	}
+	// once the inactive event has passed the handlers no idle period is timed any more: a timer callback that FIRES
+	// after that instant (it was not already in flight) means a timer was still armed
+	if in := post.Of("inactive"); len(in) > 0 && in[0].End != 0 {
+		for _, t := range tasks {
+			if t.IsTimer && t.FiredAt > in[0].EndAt {
+				e.Violate("timer-released", "timer-fired-after-inactive", "an idle timer fired at t=%v, after the inactive event had passed the handlers at t=%v: an idle period was still being timed", t.FiredAt, in[0].EndAt)
+				break
+			}
+		}
+	}
 	if afterInactive > 2 || (which != 2 && afterInactive > 1) {
 		e.Violate("none-after-inactive", "idle-events-after-inactive", "%d idle events delivered after the inactive event had passed the handler(s)", afterInactive)
 	}
